@@ -13,7 +13,13 @@ FSPEIGS = 'C05:speigs:charge-sector-without-stored-block:TypeError'
 FSPEIGS2 = 'C05:speigs:real-input:complex-eigenvector-in-float64-Array'
 FQR = 'C05:qr(pos_diag_R=True):zero-on-R-diagonal:NaN'
 
+FINT_SVD = 'C05:svd:integer-dtype-input:factors-truncated-to-int'
+FINT_QR = 'C05:qr:integer-dtype-input:float-blocks-in-int-Array'
+FSPEIGS3 = 'C05:speigs(return_eigenvectors=False):k>=d-1:all-d-eigenvalues-returned'
+
 MODS = [[], [1], [1], [2], [3], [1, 2], [1, 1]]
+SURGERY = ['keep', 'keep', 'keep', 'zero', 'rankdef', 'drop', 'rank1']
+LAYOUTS = ['C', 'C', 'C', 'F', 'view']
 
 
 def rand_leg(rng, mods, maxb=3, sizes=(1, 2, 3), lo=-1, hi=1, blocked=None):
@@ -29,11 +35,33 @@ def rand_leg(rng, mods, maxb=3, sizes=(1, 2, 3), lo=-1, hi=1, blocked=None):
     return [[rng.choice(sizes) for _ in range(b)], ch, rng.choice([1, -1])]
 
 
-def rand_matrix(rng, seed, square=False, hermitian=False):
+def rand_dtype(rng, ints=0.06):
+    r = rng.random()
+    if r < ints:
+        return 'i8'
+    return 'f8' if r < 0.6 else 'c16' if r < 0.88 else 'f4' if r < 0.95 else 'c8'
+
+
+def storage(rng, c, ints=0.06):
+    """representation variants of the same matrix: dtype, order of the stored blocks, memory layout of the blocks"""
+    c['dtype'] = rand_dtype(rng, ints)
+    c['complex'] = c['dtype'] in ('c16', 'c8')
+    c['shuffle'] = rng.random() < 0.3
+    c['layout'] = rng.choice(LAYOUTS)
+    return c
+
+
+def rand_matrix(rng, seed, square=False, hermitian=False, ints=0.06):
     mods = rng.choice(MODS)
     r = rng.random()
-    case = {'seed': seed, 'mods': mods, 'complex': rng.random() < 0.3}
-    if square:
+    case = {'seed': seed, 'mods': mods}
+    if square and rng.random() < 0.3:
+        # two-site operator: square matrix over a LegPipe and its conjugate
+        case['legs'] = [rand_leg(rng, mods, maxb=2, sizes=(1, 2)) for _ in range(2)]
+        case['pipe_square'] = True
+        case['hermitian'] = hermitian
+        case['qtotal_block'] = [0]
+    elif square:
         case['legs'] = [rand_leg(rng, mods, maxb=4, sizes=(1, 2, 3, 5), blocked=rng.random() < 0.5)]
         case['square'] = True
         case['hermitian'] = hermitian
@@ -50,69 +78,188 @@ def rand_matrix(rng, seed, square=False, hermitian=False):
         case['combine'] = [axes[:k], axes[k:]]
         case['pipe_qconj'] = [rng.choice([1, -1]), rng.choice([1, -1])]
         case['qtotal_block'] = [rng.randrange(3) for _ in range(rank)]
-    modes = ['keep', 'keep', 'keep', 'zero', 'rankdef', 'drop', 'rank1']
     if rng.random() < 0.55:
-        case['surgery'] = [rng.choice(modes) for _ in range(rng.randint(1, 4))]
+        case['surgery'] = [rng.choice(SURGERY) for _ in range(rng.randint(1, 4))]
     else:
         case['surgery'] = []
-    return case
+    if rng.random() < 0.15:
+        case['drop_first_last'] = rng.choice([['first'], ['last'], ['first', 'last']])
+    return storage(rng, case, ints)
 
 
-def svd_case(rng, seed):
+# option spaces as documented in the docstrings of the anchored functions (the check draws from these lists; the i-th case of a
+# stream takes the (i mod len)-th entry, so that every documented value occurs whatever the seed is)
+SVD_CUTOFF = [None, None, 0.0, 1e-9, 2.5, 7.0, 'tie']
+SVD_QTOTAL_LR = [[None, None], [None, None], ['a', None], [None, 'a'], ['zero', None], [None, 'zero'], ['minus', None], [None, 'minus'],
+                 ['minus', 'rest'], ['a', 'rest'], ['zero', 'rest'], ['a', 'both'], ['zero', 'both'], ['minus', 'both']]
+LABELS = [[None, None], ['x', 'y'], [None, 'y'], ['x', None]]
+QR_CUTOFF = [None, None, None, 1e-11, 1e-8, 0.5, 3.3]
+QR_QTOTAL_Q = [None, None, 'a', 'one', 'zero']
+EIG_SORT = [None, 'm>', 'm<', '>', '<']
+SPEIGS_WHICH = ['LM', 'SM', 'LR', 'SR', 'LI', 'SI']
+SPEIGS_RET = ['vectors', 'vectors', 'kw_false', 'args', 'args_false']
+PINV_CUTOFF = [None, 1e-9, 1e-9, 1e-12, 2.5]
+POLAR_CUTOFF = [None, None, 0.0, 1e-9, 2.5]
+
+
+def svd_case(rng, seed, i=None):
     c = rand_matrix(rng, seed)
-    full = rng.random() < 0.25
+    i = rng.randrange(10 ** 6) if i is None else i
+    full = i % 4 == 3
     o = {'full_matrices': full, 'inner_qconj': rng.choice([1, -1]),
-         'inner_labels': rng.choice([[None, None], ['x', 'y'], [None, 'y']]),
-         'qtotal_LR': rng.choice([[None, None], [None, None], ['a', None], [None, 'a'], ['zero', None], [None, 'zero'],
-                                  ['minus', None], [None, 'minus'], ['minus', 'rest'], ['a', 'rest'], ['zero', 'rest']])}
+         'inner_labels': LABELS[i % len(LABELS)],
+         'qtotal_LR': SVD_QTOTAL_LR[(i // 3) % len(SVD_QTOTAL_LR)], 'q_as_list': rng.random() < 0.3, 'uv_all_opts': rng.random() < 0.5}
     if not full:
-        o['cutoff'] = rng.choice([None, None, 0.0, 1e-9, 2.5, 7.0])
+        o['cutoff'] = SVD_CUTOFF[(i // 4) % len(SVD_CUTOFF)]
     c['opts'] = o
     return c
 
 
-def qr_case(rng, seed):
+def qr_case(rng, seed, i=None):
     c = rand_matrix(rng, seed)
-    mode = rng.choice(['reduced', 'reduced', 'complete'])
-    o = {'mode': mode, 'inner_qconj': rng.choice([1, -1]), 'inner_labels': rng.choice([[None, None], ['x', 'y']]),
-         'qtotal_Q': rng.choice([None, None, 'a', 'one']), 'pos_diag': rng.random() < 0.5, 'lq': rng.random() < 0.4}
-    if mode == 'reduced' and rng.random() < 0.3:
-        o['cutoff'] = 1e-8
+    i = rng.randrange(10 ** 6) if i is None else i
+    mode = ['reduced', 'reduced', 'complete'][i % 3]
+    o = {'mode': mode, 'inner_qconj': rng.choice([1, -1]), 'inner_labels': LABELS[(i // 3) % len(LABELS)],
+         'qtotal_Q': QR_QTOTAL_Q[(i // 2) % len(QR_QTOTAL_Q)], 'q_as_list': rng.random() < 0.3, 'pos_diag': rng.random() < 0.5, 'lq': rng.random() < 0.4}
+    if mode == 'reduced':
+        # cutoff is documented for the 'reduced' mode only ("might reduce K of the 'reduced' mode even further")
+        o['cutoff'] = QR_CUTOFF[(i // 3) % len(QR_CUTOFF)]
     c['opts'] = o
     return c
 
 
-def eig_case(rng, seed):
-    herm = rng.random() < 0.5
-    c = rand_matrix(rng, seed, square=True, hermitian=herm)
-    c['surgery'] = [m for m in c['surgery'] if m != 'rankdef' or True]
-    c['opts'] = {'sort': rng.choice([None, 'm>', 'm<', '>', '<']), 'UPLO': rng.choice(['L', 'U']), 'k': rng.choice([1, 2])}
+def eig_case(rng, seed, i=None):
+    i = rng.randrange(10 ** 6) if i is None else i
+    herm = i % 2 == 0
+    c = rand_matrix(rng, seed, square=True, hermitian=herm, ints=0.05)
+    c['opts'] = {'sort': EIG_SORT[(i // 2) % len(EIG_SORT)], 'UPLO': rng.choice(['L', 'U']),
+                 # speigs: sector (index into the blocked leg), k relative to the sector size (d-2: ARPACK; d-1, d: dense; d+1: trimmed) or absolute
+                 'sector': rng.choice(['largest', 'largest', 0, 1, 2, 3]), 'k': rng.choice([1, 2]),
+                 'k_rel': rng.choice([None, None, -3, -2, -1, 0, 1]), 'which': SPEIGS_WHICH[(i // 3) % len(SPEIGS_WHICH)],
+                 'ret': SPEIGS_RET[(i // 5) % len(SPEIGS_RET)], 'sector_as_list': rng.random() < 0.5}
+    if herm and rng.random() < 0.5:
+        c['uplo_garbage'] = True
     return c
 
 
-def ortho_case(rng, seed):
+def pinv_case(rng, seed, i=None):
+    c = rand_matrix(rng, seed)
+    i = rng.randrange(10 ** 6) if i is None else i
+    c['opts'] = {'pinv_cutoff': PINV_CUTOFF[i % len(PINV_CUTOFF)], 'polar_cutoff': POLAR_CUTOFF[(i // 2) % len(POLAR_CUTOFF)],
+                 'inner_labels': [None, ['x', 'y'], None, ['x', 'x']][(i // 3) % 4]}
+    return c
+
+
+def ortho_case(rng, seed, i=None):
     mods = rng.choice(MODS)
+    i = rng.randrange(10 ** 6) if i is None else i
     L = rand_leg(rng, mods, maxb=4, sizes=(1, 2, 3, 4), blocked=rng.random() < 0.6)
+    shape = ['tall'] * 8 + ['square', 'wide']
+    shape = shape[i % len(shape)]
+    qR = -L[2] if rng.random() < 0.7 else L[2]
+    qtot = [rng.randint(-1, 1) for _ in mods] if rng.random() < 0.4 else [0 for _ in mods]
     Rs, Rc = [], []
     seen = []
     for s, ch in zip(L[0], L[1]):
         key = [x if m == 1 else x % m for m, x in zip(mods, ch)]
-        if key in seen or rng.random() < 0.25:
+        if key in seen or (shape == 'tall' and rng.random() < 0.25):
             continue
         seen.append(key)
-        r = rng.randint(0, s)
+        r = s if shape != 'tall' else rng.randint(0, s)
+        if shape == 'wide':
+            r = s + 1
         if r > 0:
             Rs.append(r)
-            Rc.append(ch)
+            # charge of the column sector that pairs with the row sector `ch`: qL*cL + qR*cR = qtot
+            Rc.append([qR * (t - L[2] * x) for t, x in zip(qtot, ch)])
     if not Rs:
-        Rs, Rc = [1], [L[1][0]]
-    R = [Rs, Rc, -L[2]]
+        Rs, Rc = [1], [[qR * (t - L[2] * x) for t, x in zip(qtot, L[1][0])]]
+    if shape != 'tall':
+        # square / wide: the column leg pairs with every row index, so the row leg has to be blocked
+        if len(seen) != len(L[0]):
+            keep = []
+            seen2 = []
+            for k, ch in enumerate(L[1]):
+                key = [x if m == 1 else x % m for m, x in zip(mods, ch)]
+                if key not in seen2:
+                    seen2.append(key)
+                    keep.append(k)
+            L = [[L[0][k] for k in keep], [L[1][k] for k in keep], L[2]]
+    if rng.random() < 0.3 and max(Rs) >= 2:     # right leg not blocked: a column sector split into two blocks of equal charge
+        k = rng.choice([j for j, x in enumerate(Rs) if x >= 2])
+        Rs[k] -= 1
+        Rs.append(1)
+        Rc.append(Rc[k])
+    R = [Rs, Rc, qR]
     if rng.random() < 0.4 and len(Rs) > 1:     # unsorted / permuted right leg
         perm = list(range(len(Rs)))
         rng.shuffle(perm)
-        R = [[Rs[i] for i in perm], [Rc[i] for i in perm], -L[2]]
-    return {'seed': seed, 'mods': mods, 'legs': [L, R], 'qtotal_block': [0, 0], 'zero_qtotal': True, 'complex': rng.random() < 0.3,
-            'surgery': [], 'opts': {'new_label': rng.choice([None, 'new'])}}
+        R = [[Rs[k] for k in perm], [Rc[k] for k in perm], qR]
+    c = {'seed': seed, 'mods': mods, 'legs': [L, R], 'qtotal_block': [0, 0], 'qtotal_explicit': qtot,
+         'surgery': [], 'opts': {'new_label': rng.choice([None, 'new'])}}
+    storage(rng, c, ints=0.05)
+    if c['dtype'] in ('f4', 'c8'):
+        c['dtype'] = 'c16' if c['complex'] else 'f8'
+    return c
+
+
+REJECT_ITEMS = ['svd:rank3', 'svd:full_matrices+cutoff', 'svd:full_matrices+compute_uv=False', 'svd:qtotal_LR-inconsistent', 'polar:rank3',
+                'polar:cutoff<0', 'pinv:cutoff=0', 'pinv:cutoff<0', 'qr:rank3', 'lq:rank3', 'orthogonal_columns:rank3', 'orthogonal_columns:M<N',
+                'expm:non-square', 'expm:qtotal!=0', 'expm:not-contractible', 'speigs:non-square', 'speigs:qtotal!=0', 'speigs:sector-not-in-leg',
+                'norm:unknown-type', 'tools.speigs:non-square', 'tools.speigsh:non-square'] + \
+    [f + ':' + w for f in ('eigh', 'eig', 'eigvalsh', 'eigvals') for w in ('non-square', 'rank3', 'qtotal!=0', 'not-contractible')]
+NORM_ORDS = ['None', 'inf', '-inf', 0, 1, 2, 3]
+
+
+def aux_cases(rng, base, n):
+    """dense helpers, npc.norm, rejected requests and retry branches; n scales the random part"""
+    out = []
+    k = 0
+
+    def seed():
+        nonlocal k
+        k += 1
+        return base + k
+    # svd_robust.svd: every documented option, both drivers, failing gesdd
+    for i in range(n):
+        o = {'full_matrices': i % 2 == 0, 'compute_uv': i % 5 != 4, 'overwrite_a': i % 3 == 0, 'check_finite': i % 7 != 6,
+             'lapack_driver': ['gesdd', 'gesdd', 'gesvd', 'gesdd', 'bad'][i % 5] if i % 11 else 'gesdd', 'warn': i % 4 != 1, 'fail_gesdd': i % 3 == 1,
+             'defaults': i % 13 == 12}
+        out.append({'what': 'svd_robust', 'seed': seed(), 'M': rng.randint(1, 5), 'N': rng.randint(1, 5), 'r': rng.randint(0, 5),
+                    'dtype': ['f8', 'c16', 'f8', 'f4', 'c8', 'i8'][i % 6], 'layout': LAYOUTS[(i // 2) % len(LAYOUTS)], 'opts': o})
+    # qr_li / rq_li
+    for i in range(2 * n):
+        out.append({'what': ['qr_li', 'rq_li'][i % 2], 'seed': seed(), 'M': rng.randint(1, 6), 'N': rng.randint(1, 6),
+                    'r': [0, 1, 2, 6, 6][(i // 2) % 5] if i % 3 else rng.randint(0, 6), 'dtype': ['f8', 'c16'][(i // 2) % 2],
+                    'layout': LAYOUTS[(i // 4) % len(LAYOUTS)], 'opts': {'cutoff': [None, 1e-8, 1e-11, 0.5, 3.3][(i // 2) % 5]}})
+    # tools.math.speigs / speigsh
+    for i in range(2 * n):
+        herm = i % 2 == 1
+        out.append({'what': 'speigsh' if herm else 'speigs', 'seed': seed(), 'd': rng.randint(1, 7), 'dtype': ['f8', 'c16'][(i // 2) % 2],
+                    'opts': {'k_rel': [-3, -2, -1, 0, 1, -4][(i // 2) % 6], 'which': (['LM', 'SM', 'LA', 'SA'] if herm else SPEIGS_WHICH)[(i // 2) % (4 if herm else 6)],
+                             'ret': SPEIGS_RET[(i // 3) % len(SPEIGS_RET)], 'operator': (i // 2) % 3 == 2}})
+    # npc.norm
+    for i in range(n):
+        c = rand_matrix(rng, seed(), ints=0.25)
+        c['what'] = 'norm'
+        c['opts'] = {'arg': ['Array', 'Array', 'ndarray', 'list'][i % 4], 'ord': NORM_ORDS[(i // 4) % len(NORM_ORDS)], 'convert_to_float': i % 5 != 4}
+        if c['dtype'] == 'i8' and not c['opts']['convert_to_float'] and c['opts']['ord'] not in ('inf', '-inf', 0):
+            c['opts']['convert_to_float'] = True       # integer overflow / integer powers are what convert_to_float is for
+        out.append(c)
+    # requests the routines have to reject
+    for i, item in enumerate(REJECT_ITEMS * max(1, n // 40)):
+        out.append({'what': 'reject', 'seed': seed(), 'mods': [1], 'square': True, 'hermitian': False, 'dtype': 'f8', 'complex': False, 'surgery': [],
+                    'layout': 'C', 'qtotal_block': [0], 'legs': [[[2, 1, 2], [[0], [1], [-1]], rng.choice([1, -1])]],
+                    'opts': {'item': item, 'absent_sector': [5]}})
+    # NaN from LAPACK: retry with gesvd / ValueError
+    for i in range(max(6, n // 4)):
+        c = rand_matrix(rng, seed())
+        c['what'] = 'svd_nan'
+        c['dtype'], c['complex'] = ('f8', False) if i % 2 else ('c16', True)
+        c['surgery'] = [m for m in c['surgery'] if m in ('keep', 'drop')]
+        c['opts'] = {'mode': ['retry', 'retry', 'both', 'S'][i % 4], 'block': i // 4, 'full_matrices': i % 8 == 1}
+        out.append(c)
+    return out
 
 
 # ------------------------------------------------------------------------------------------------
@@ -189,6 +336,8 @@ def plan_case(rng, seed, what):
         else:
             c['opts'] = {'full_matrices': rng.random() < 0.25, 'inner_qconj': rng.choice([1, -1])}
     c['surgery'] = [m for m in c['surgery'] if m in ('keep', 'drop')]      # values come from the stub; only the block structure matters
+    c['dtype'], c['complex'] = 'f8', False
+    c.pop('uplo_garbage', None)
     c['plan'] = what
     return c
 
@@ -229,6 +378,9 @@ PLAN_IMPORTS = ['Base.Prelude', 'Model.ChargeL', 'Model.Leg', 'Model.Factor', 'M
                 'Model.FactorDense2', 'Model.FactorDense3', 'Model.FactorCase2', 'Model.FactorCase3']
 
 
+LINECOV = {'executable': {}, 'hit': {}}
+
+
 def run_chunks(kind, cases, config='py', n=None):
     n = n or common.NPROC
     chunks = [cases[i::n] for i in range(n)]
@@ -242,13 +394,25 @@ def run_chunks(kind, cases, config='py', n=None):
         k += 1
         if err:
             return None, err
-        for j, x in enumerate(r):
+        lc = r.get('linecov')
+        if lc:
+            for key, lines in lc['executable'].items():
+                LINECOV['executable'][key] = lines
+            for key, lines in lc['hit'].items():
+                LINECOV['hit'].setdefault(key, set()).update(lines)
+        for j, x in enumerate(r['results']):
             out[i + j * n] = x
     return out, None
 
 
 def match_key(key):
     """known-finding keys for the structural conditions named in DESIGN section 8 (F10) and the pos_diag NaN"""
+    if key.endswith(':integer-dtype'):
+        head = key.split(':')[0]
+        if head in ('svd', 'svd-full', 'pinv', 'polar'):
+            return FINT_SVD
+        if head in ('qr', 'lq', 'ortho'):
+            return FINT_QR
     if key.startswith('svd-full:'):
         what, _, cond = key[len('svd-full:'):].partition(':')
         if what in ('U-unitary', 'V-unitary') and cond.startswith('missing-blocks'):
@@ -263,7 +427,255 @@ def match_key(key):
         return FSPEIGS2
     if key in ('qr:nan:pos_diag+singular-R-diagonal', 'lq:nan:pos_diag+singular-R-diagonal'):
         return FQR
+    if key in ('speigs:count:return_eigenvectors=False:dense-branch', 'speigsh:count:return_eigenvectors=False:dense-branch'):
+        return FSPEIGS3
     return None
+
+
+# ------------------------------------------------------------------------------------------------
+# coverage table: public names of the anchored modules x documented options / explicit branches
+# ------------------------------------------------------------------------------------------------
+
+M_NPC, M_SVD, M_MATH = 'tenpy.linalg.np_conserved', 'tenpy.linalg.svd_robust', 'tenpy.tools.math'
+NOT_C05 = 'not a factorisation routine (construction / contraction / charge detection: properties C01-C04)'
+# every public name of the anchored modules is either covered (signature + option classes below) or excluded with a reason
+PUBLIC = {
+    M_NPC: {
+        'covered': ['svd', 'polar', 'pinv', 'norm', 'eigh', 'eig', 'eigvalsh', 'eigvals', 'speigs', 'expm', 'qr', 'lq', 'orthogonal_columns'],
+        'excluded': {n: NOT_C05 for n in ['QCUTOFF', 'ChargeInfo', 'DipolarChargeInfo', 'LegCharge', 'LegPipe', 'Array', 'zeros', 'ones', 'eye_like', 'diag',
+                                         'concatenate', 'grid_concat', 'grid_outer', 'detect_grid_outer_legcharge', 'detect_qtotal', 'detect_legcharge',
+                                         'trace', 'outer', 'inner', 'tensordot', 'to_iterable_arrays']}},
+    M_SVD: {'covered': ['svd'], 'excluded': {}},
+    M_MATH: {'covered': ['qr_li', 'rq_li', 'speigs', 'speigsh', 'matvec_to_array'],
+             'excluded': {n: 'number theory / entropy helper, no matrix factorisation' for n in ['LeviCivita3', 'entropy', 'gcd', 'gcd_array', 'lcm', 'perm_sign']}},
+}
+# parameters of the covered functions (compared with inspect.signature of the code under test) -> (stream, tag prefix, required classes)
+SIGNATURES = {
+    M_NPC + ':svd': {'a': ('svd', 'dtype=', ['f8', 'c16', 'f4', 'c8', 'i8']), 'full_matrices': ('svd', 'full_matrices=', ['True', 'False']),
+                     'compute_uv': ('svd', 'compute_uv=', ['False', 'False+opts']), 'cutoff': ('svd', 'cutoff=', ['None', '0.0', 'tiny', 'large', 'tie-with-singular-value']),
+                     'qtotal_LR': ('svd', 'qtotal_LR=', ['default', 'L', 'R', 'L+R']), 'inner_labels': None, 'inner_qconj': ('svd', 'inner_qconj=', ['1', '-1'])},
+    M_NPC + ':polar': {'a': ('pinv', 'dtype=', ['f8', 'c16']), 'cutoff': ('pinv', 'polar:left=False,cutoff=', ['default', '0.0', 'tiny', 'large']),
+                       'left': ('pinv', 'polar:left=', ['False', 'True']), 'inner_labels': None},
+    M_NPC + ':pinv': {'a': ('pinv', 'dtype=', ['f8', 'c16']), 'cutoff': ('pinv', 'pinv:cutoff=', ['default', 'tiny', 'large'])},
+    M_NPC + ':norm': {'a': ('aux', 'norm:arg=', ['Array', 'ndarray', 'list']), 'ord': ('aux', 'norm:ord=', [str(x) for x in NORM_ORDS]),
+                      'convert_to_float': ('aux', 'norm:convert_to_float=', ['True', 'False'])},
+    M_NPC + ':eigh': {'a': ('eig', 'hermitian=', ['True']), 'UPLO': ('eig', 'UPLO=', ['L', 'U', 'L+other-triangle-garbage', 'U+other-triangle-garbage']),
+                      'sort': ('eig', 'sort=', [str(x) for x in EIG_SORT])},
+    M_NPC + ':eigvalsh': {'a': ('eig', 'hermitian=', ['True']), 'UPLO': ('eig', 'UPLO=', ['L', 'U']), 'sort': ('eig', 'sort=', [str(x) for x in EIG_SORT])},
+    M_NPC + ':eig': {'a': ('eig', 'hermitian=', ['False']), 'sort': ('eig', 'sort=', [str(x) for x in EIG_SORT])},
+    M_NPC + ':eigvals': {'a': ('eig', 'hermitian=', ['False']), 'sort': ('eig', 'sort=', [str(x) for x in EIG_SORT])},
+    M_NPC + ':speigs': {'a': ('eig', 'speigs:', ['block', 'no-block']), 'charge_sector': ('eig', 'speigs:', ['block', 'no-block']),
+                        'k': ('eig', 'speigs:k', ['>d']), 'args': ('eig', 'speigs:*ret=', ['args', 'args_false']),
+                        'kwargs': ('eig', 'speigs:*ret=', ['vectors', 'kw_false'])},
+    M_NPC + ':expm': {'a': ('eig', 'expm', [''])},
+    M_NPC + ':qr': {'a': ('qr', 'dtype=', ['f8', 'c16', 'f4', 'c8', 'i8']), 'mode': ('qr', 'mode=', ['reduced', 'complete']), 'inner_labels': None,
+                    'cutoff': ('qr', 'cutoff=', ['None', 'tiny', 'large']), 'pos_diag_R': ('qr', 'pos_diag=', ['True', 'False']),
+                    'qtotal_Q': ('qr', 'qtotal_Q=', ['None', '0', '!=0']), 'inner_qconj': ('qr', 'inner_qconj=', ['1', '-1'])},
+    M_NPC + ':lq': {'a': ('qr', 'lq=', ['True']), 'mode': ('qr', 'mode=', ['reduced', 'complete']), 'inner_labels': None,
+                    'cutoff': ('qr', 'cutoff=', ['None', 'tiny', 'large']), 'pos_diag_L': ('qr', 'pos_diag=', ['True', 'False']),
+                    'qtotal_Q': ('qr', 'qtotal_Q=', ['None', '0', '!=0']), 'inner_qconj': ('qr', 'inner_qconj=', ['1', '-1'])},
+    M_NPC + ':orthogonal_columns': {'a': ('ortho', '', ['M==N:empty-result', 'M<N:raises', 'first-row-sector-without-block', 'last-row-sector-without-block',
+                                                        'middle-row-sector-without-block', 'square-block(no-orthogonal-column)', 'qtotal_a=!=0',
+                                                        'right_qconj=left', 'right_qconj=-left']),
+                                    'new_label': ('ortho', 'new_label=', ['True', 'False'])},
+    M_SVD + ':svd': {'a': ('aux', 'svd_robust:dtype=', ['f8', 'c16', 'f4', 'c8', 'i8']), 'full_matrices': ('aux', 'svd_robust:full_matrices=', ['True', 'False']),
+                     'compute_uv': ('aux', 'svd_robust:compute_uv=', ['True', 'False']), 'overwrite_a': ('aux', 'svd_robust:overwrite_a=', ['True', 'False']),
+                     'check_finite': ('aux', 'svd_robust:check_finite=', ['True', 'False']), 'lapack_driver': ('aux', 'svd_robust:lapack_driver=', ['gesdd', 'gesvd', 'bad']),
+                     'warn': ('aux', 'svd_robust:warn=', ['True', 'False'])},
+    M_MATH + ':qr_li': {'A': ('aux', 'qr_li:', ['zero-matrix', 'rank-deficient', 'full-rank', 'shape=M<N', 'shape=M>N', 'shape=M==N', 'layout=F', 'layout=view']),
+                        'cutoff': ('aux', 'qr_li:cutoff=', ['default', 'tiny', 'large'])},
+    M_MATH + ':rq_li': {'A': ('aux', 'rq_li:', ['zero-matrix', 'rank-deficient', 'full-rank', 'shape=M<N', 'shape=M>N', 'shape=M==N', 'layout=F', 'layout=view']),
+                        'cutoff': ('aux', 'rq_li:cutoff=', ['default', 'tiny', 'large'])},
+    M_MATH + ':speigs': {'A': ('aux', 'speigs:A=', ['ndarray', 'operator']), 'k': ('aux', 'speigs:', ['arpack', 'dense', 'k>d']),
+                         'args': ('aux', 'speigs:ret=', ['args', 'args_false']), 'kwargs': ('aux', 'speigs:ret=', ['vectors', 'kw_false'])},
+    M_MATH + ':speigsh': {'A': ('aux', 'speigsh:A=', ['ndarray', 'operator']), 'k': ('aux', 'speigsh:', ['arpack', 'dense', 'k>d']),
+                          'args': ('aux', 'speigsh:ret=', ['args', 'args_false']), 'kwargs': ('aux', 'speigsh:ret=', ['vectors', 'kw_false'])},
+    M_MATH + ':matvec_to_array': {'H': ('aux', 'speigs:A=', ['operator'])},
+}
+# structural classes of the quantifier / explicit branches of the bodies that every run has to reach (stream -> tags)
+REQUIRED_TAGS = {
+    'svd': ['piped=', 'piped=0', 'piped=1', 'piped=01', 'layout=F', 'layout=view', 'qdata_sorted=False', 'qtotal_a=!=0', 'one-sided-or-missing-sector',
+            'cutoff-drops-values', 'cutoff-drops-whole-block', 'raises-RuntimeError-no-singular-values', 'legs_are_pipes=LegPipe'],
+    'qr': ['piped=', 'piped=0', 'piped=1', 'piped=01', 'layout=F', 'layout=view', 'qdata_sorted=False', 'qtotal_a=!=0', 'row-sector-without-block',
+           'first-row-sector-without-block', 'last-row-sector-without-block', 'rank-deficient-block', 'cutoff-reduces-K', 'cutoff-keeps-all', 'lq=True', 'lq=False'],
+    'eig': ['piped=', 'piped=01', 'layout=F', 'layout=view', 'qdata_sorted=False', 'legs_are_pipes=LegPipe', 'sector-without-block', 'dtype=i8', 'dtype=c16', 'dtype=f4'],
+    'pinv': ['piped=', 'piped=0', 'piped=1', 'piped=01', 'layout=F', 'qdata_sorted=False', 'qtotal_a=!=0', 'pinv:drops-singular-values'],
+    'ortho': ['piped=', 'piped=0', 'piped=1', 'piped=01', 'layout=F', 'qdata_sorted=False', 'dtype=c16'],
+    'aux': ['svd_robust:gesdd-fails=True', 'svd_nan:retry', 'svd_nan:both', 'svd_nan:S', 'svd_nan:retry,full_matrices'] + ['reject:' + x for x in REJECT_ITEMS],
+}
+def forced_cases():
+    """deterministic cases (independent of the seed) which force the structural classes of REQUIRED_TAGS / SIGNATURES"""
+    Lb, Rb = [[1, 2, 3], [[0], [1], [2]], 1], [[1, 2, 2], [[0], [1], [2]], -1]
+    Lu, Ru = [[1, 2, 1], [[0], [1], [0]], 1], [[2, 1, 1], [[1], [0], [1]], -1]
+    structs = [(Lb, Rb), (Lu, Rb), (Lb, Ru), (Lu, Ru)]
+    variants = [{}, {'layout': 'F', 'shuffle': True, 'qtotal_block': [1, 0]}, {'layout': 'view', 'drop_first_last': ['first', 'last']},
+                {'surgery': ['zero', 'keep', 'rankdef']}, {'surgery': ['zero']}, {'surgery': ['rankdef']}]
+    dts = ['f8', 'c16', 'f4', 'c8', 'i8', 'f8']
+    out = {'svd': [], 'qr': [], 'eig': [], 'pinv': [], 'ortho': []}
+    n = 0
+
+    def mk(L, R, var, dt, **kw):
+        nonlocal n
+        n += 1
+        c = {'seed': 900000 + n, 'mods': [1], 'legs': [L, R], 'qtotal_block': [0, 0], 'surgery': [], 'shuffle': False, 'layout': 'C',
+             'dtype': dt, 'complex': dt in ('c16', 'c8')}
+        c.update(var)
+        c.update(kw)
+        return c
+    pipe = {'legs': [[[1, 2], [[0], [1]], 1], [[2, 1], [[0], [1]], 1], [[2, 2], [[0], [1]], -1]], 'combine': [[0, 1], [2]], 'pipe_qconj': [1, -1],
+            'qtotal_block': [0, 0, 0]}
+    for si, (L, R) in enumerate(structs):
+        for vi, var in enumerate(variants):
+            for ci, cut in enumerate([None, 'tie', 7.0, 0.0]):
+                i = si * 24 + vi * 4 + ci
+                c = mk(L, R, var, dts[(vi + ci) % 6] if cut is None else 'f8')
+                c['opts'] = {'full_matrices': False, 'inner_qconj': [1, -1][i % 2], 'inner_labels': LABELS[i % 4], 'qtotal_LR': SVD_QTOTAL_LR[i % len(SVD_QTOTAL_LR)],
+                             'q_as_list': i % 3 == 0, 'uv_all_opts': i % 2 == 0, 'cutoff': cut}
+                out['svd'].append(c)
+            for mi, (mode, cut) in enumerate([('reduced', None), ('reduced', 1e-8), ('reduced', 3.3), ('complete', None)]):
+                i = si * 24 + vi * 4 + mi
+                c = mk(L, R, var, dts[(vi + mi) % 6] if cut is None else 'f8')
+                c['opts'] = {'mode': mode, 'inner_qconj': [1, -1][i % 2], 'inner_labels': LABELS[i % 4], 'qtotal_Q': QR_QTOTAL_Q[i % len(QR_QTOTAL_Q)],
+                             'q_as_list': i % 3 == 0, 'pos_diag': i % 2 == 0, 'lq': (i // 2) % 2 == 0, 'cutoff': cut}
+                out['qr'].append(c)
+            c = mk(L, R, var, dts[vi % 4])
+            c['opts'] = {'pinv_cutoff': [1e-9, 2.5, None][vi % 3], 'polar_cutoff': POLAR_CUTOFF[(si + vi) % len(POLAR_CUTOFF)], 'inner_labels': [None, ['x', 'y']][vi % 2]}
+            out['pinv'].append(c)
+    for k, c0 in enumerate([dict(pipe), dict(pipe, layout='F', shuffle=True)]):
+        c = dict({'seed': 910000 + k, 'mods': [1], 'surgery': [], 'shuffle': False, 'layout': 'C', 'dtype': 'f8', 'complex': False}, **c0)
+        out['svd'].append(dict(c, opts={'full_matrices': False, 'inner_qconj': 1, 'inner_labels': [None, None], 'qtotal_LR': [None, None]}))
+        out['svd'].append(dict(c, opts={'full_matrices': True, 'inner_qconj': 1, 'inner_labels': [None, None], 'qtotal_LR': [None, None]}))
+        out['qr'].append(dict(c, opts={'mode': 'reduced', 'inner_qconj': 1, 'inner_labels': [None, None], 'qtotal_Q': None, 'pos_diag': True, 'lq': False}))
+    # square matrices: blocked / unblocked leg, LegPipe legs; hermitian or not; dtypes; missing sectors; every speigs mode
+    Sb, Su = [[1, 2, 3], [[0], [1], [2]], 1], [[1, 2, 1, 3], [[0], [1], [0], [1]], 1]
+    P2 = [[[1, 2], [[0], [1]], 1], [[2, 1], [[0], [1]], -1]]
+    i = 0
+    for sq in ({'legs': [Sb], 'square': True}, {'legs': [Su], 'square': True}, {'legs': P2, 'pipe_square': True}):
+        for var in ({}, {'layout': 'F', 'shuffle': True}, {'layout': 'view', 'drop_first_last': ['first', 'last']}, {'surgery': ['drop', 'keep', 'rankdef']}):
+            for herm in (True, False):
+                for kr in (-3, -1, 1):
+                    i += 1
+                    c = {'seed': 920000 + i, 'mods': [1], 'qtotal_block': [0], 'surgery': [], 'shuffle': False, 'layout': 'C', 'hermitian': herm,
+                         'dtype': ['f8', 'c16', 'f4', 'i8', 'c8'][i % 5]}
+                    c['complex'] = c['dtype'] in ('c16', 'c8')
+                    c.update(sq)
+                    c.update(var)
+                    c['opts'] = {'sort': EIG_SORT[i % 5], 'UPLO': ['L', 'U'][i % 2], 'sector': [0, 'largest', 2][i % 3], 'k': 1, 'k_rel': kr,
+                                 'which': SPEIGS_WHICH[i % 6], 'ret': SPEIGS_RET[i % 5], 'sector_as_list': i % 2 == 0}
+                    if herm and i % 4 < 2:
+                        c['uplo_garbage'] = True
+                    out['eig'].append(c)
+    # orthogonal_columns: (left leg, right leg) with missing first / middle / last row sector, square block, unblocked legs, charged
+    OL = [[2, 3, 2], [[0], [1], [2]], 1]
+    OLu = [[2, 1, 2], [[1], [0], [1]], 1]
+    rights = [[[1, 2], [[0], [1]], -1], [[1, 1], [[1], [2]], -1], [[1, 1], [[0], [2]], -1], [[2, 1], [[0], [1]], -1], [[2, 1], [[1], [0]], -1],
+              [[1, 2], [[0], [-1]], 1], [[2, 3, 2], [[0], [1], [2]], -1], [[3, 3, 3], [[0], [1], [2]], -1],
+              [[1, 1], [[0], [0]], -1], [[1, 1, 1], [[1], [0], [1]], -1]]
+    for k, R in enumerate(rights):
+        for L in (OL, OLu):
+            if L is OLu and k in (1, 2, 6, 7):
+                continue
+            for qt in ([0], [1]):
+                Rq = [R[0], [[x[0] + R[2] * qt[0]] for x in R[1]], R[2]] if qt[0] else R
+                c = mk(L, Rq, variants[k % 3] if k % 3 != 1 else {'layout': 'F', 'shuffle': True}, ['f8', 'c16'][k % 2])
+                c.pop('qtotal_block', None)
+                c.update({'qtotal_block': [0, 0], 'qtotal_explicit': qt, 'opts': {'new_label': [None, 'new'][k % 2]}})
+                c.pop('drop_first_last', None)
+                out['ortho'].append(c)
+    return out
+
+
+FORCED = forced_cases()
+
+# unreached source lines of the anchored functions which are accepted (function -> stripped source text -> reason)
+LINE_EXCLUDED = {}
+
+
+def coverage_tables(ctx, tags, refl):
+    """evidence tables + correspondence failures for holes; tags: stream -> tag -> count"""
+    table = {}
+    holes = []
+    # 1. public names (by reflection on the code under test)
+    for mod, spec in PUBLIC.items():
+        r = refl.get(mod)
+        if r is None:
+            holes.append('module %s could not be inspected' % mod)
+            continue
+        names = set(r['all']) | set(n for n in r['functions'] if not n.startswith('_'))
+        for n in sorted(names):
+            if n in spec['covered']:
+                continue
+            if n in spec['excluded']:
+                table.setdefault('excluded_names', {})[mod + ':' + n] = spec['excluded'][n]
+                continue
+            holes.append('public name %s.%s is neither covered by the check nor classified as outside the property' % (mod, n))
+        for n in spec['covered']:
+            key = mod + ':' + n
+            sig = r['functions'].get(n)
+            if sig is None:
+                holes.append('covered function %s.%s no longer exists' % (mod, n))
+                continue
+            want = SIGNATURES[key]
+            have = [p[0] for p in sig]
+            if sorted(have) != sorted(want):
+                holes.append('signature of %s is %s, the option table of the check knows %s' % (key, have, sorted(want)))
+            row = {}
+            for par, how in want.items():
+                if how is None:
+                    row[par] = 'labels: drawn from %s, compared on every result' % LABELS
+                    continue
+                stream, prefix, classes = how
+                got = {}
+                for cl in classes:
+                    if prefix.startswith('speigs:*'):
+                        cnt = sum(v for t, v in tags.get(stream, {}).items() if t.startswith('speigs:') and t.endswith(prefix[len('speigs:*'):] + cl))
+                    elif prefix == 'speigs:' and stream == 'eig':
+                        cnt = sum(v for t, v in tags.get(stream, {}).items() if t.startswith('speigs:' + cl + ','))
+                    else:
+                        cnt = sum(v for t, v in tags.get(stream, {}).items() if t == prefix + cl or (cl and t.startswith(prefix + cl + ',')))
+                    got[cl if cl else 'called'] = cnt
+                    if cnt == 0:
+                        holes.append('option class %s(%s: %s) was not reached by stream %s' % (key, par, cl, stream))
+                row[par] = got
+            table.setdefault('options', {})[key] = row
+    # 2. structural classes / branches
+    for stream, req in REQUIRED_TAGS.items():
+        for t in req:
+            cnt = tags.get(stream, {}).get(t, 0)
+            table.setdefault('structure', {}).setdefault(stream, {})[t if t != 'piped=' else 'piped=(none)'] = cnt
+            if cnt == 0:
+                holes.append('structural class %r was not reached by stream %s' % (t, stream))
+    # 3. line coverage of the anchored functions measured in the runner processes
+    src = {}
+    lines_tab = {}
+    import os
+    for key, exe in sorted(LINECOV['executable'].items()):
+        mod, fn = key.split(':')
+        if exe is None:
+            holes.append('anchored function %s not found for line coverage' % key)
+            continue
+        hit = LINECOV['hit'].get(key, set())
+        path = os.path.join(common.REPO, mod.replace('.', '/') + '.py')
+        if path not in src:
+            src[path] = open(path).read().split('\n')
+        miss = []
+        for l in exe:
+            if l in hit:
+                continue
+            text = src[path][l - 1].strip()
+            reason = LINE_EXCLUDED.get(key, {}).get(text)
+            miss.append([l, text, reason or 'NOT REACHED'])
+            if reason is None:
+                holes.append('line %d of %s is never executed by the check: %s' % (l, key, text))
+        lines_tab[key] = {'executable': len(exe), 'hit': len([l for l in exe if l in hit]), 'unreached': miss}
+    if not LINECOV['executable']:
+        holes.append('no line coverage was recorded (sys.monitoring unavailable?)')
+    table['lines'] = lines_tab
+    ctx.cov['coverage_table'] = table
+    ctx.cov['tags'] = {st: dict(sorted(t.items())) for st, t in tags.items()}
+    for h in holes[:12]:
+        ctx.fail('correspondence', 'coverage hole: ' + h, None)
+    return holes
 
 
 def main(ctx):
@@ -272,21 +684,28 @@ def main(ctx):
     boost = 1 if ctx.proof.ok else 3
     base = ctx.seed * 1000003
     streams = [
-        ('svd', [svd_case(rng, base + i) for i in range(ctx.pick(700, 4500) * boost)]),
-        ('qr', [qr_case(rng, base + 100000 + i) for i in range(ctx.pick(700, 4500) * boost)]),
-        ('eig', [eig_case(rng, base + 200000 + i) for i in range(ctx.pick(350, 2200) * boost)]),
-        ('pinv', [rand_matrix(rng, base + 300000 + i) for i in range(ctx.pick(300, 2000) * boost)]),
-        ('ortho', [ortho_case(rng, base + 400000 + i) for i in range(ctx.pick(300, 2000) * boost)]),
+        ('svd', [svd_case(rng, base + i, i) for i in range(ctx.pick(760, 4500) * boost)]),
+        ('qr', [qr_case(rng, base + 100000 + i, i) for i in range(ctx.pick(760, 4500) * boost)]),
+        ('eig', [eig_case(rng, base + 200000 + i, i) for i in range(ctx.pick(400, 2200) * boost)]),
+        ('pinv', [pinv_case(rng, base + 300000 + i, i) for i in range(ctx.pick(320, 2000) * boost)]),
+        ('ortho', [ortho_case(rng, base + 400000 + i, i) for i in range(ctx.pick(320, 2000) * boost)]),
         # the code around the per-block LAPACK calls with stubbed integer-valued LAPACK results (tie of eig_plan, pos_diag, svd assembly)
         ('plan', [plan_case(rng, base + 500000 + i, w) for w in ('eig', 'posdiag', 'svdasm') for i in range(ctx.pick(90, 600) * boost)]),
+        # dense helpers, norm, rejected requests, LAPACK failure branches
+        ('aux', aux_cases(rng, base + 600000, ctx.pick(60, 400) * boost)),
     ]
     ctx.cov['traces_validated_against_impl'] = 0
     hist = {}
+    tags = {}
     import time
+    refl, err = common.run_impl('c05_impl.py', {'kind': 'reflect'}, config='py', optimize0=True)
+    if err:
+        ctx.fail('correspondence', 'reflection runner failed: %s' % err[-600:], None)
+        refl = {'reflect': {}}
     for kind, cases in streams:
         t_stream = time.time()
         ctx.cov.setdefault('timings_s', {})[kind] = None
-        cases = [c['case'] for c in common.corpus_cases('C05') if c.get('stream') == kind] + cases
+        cases = [c['case'] for c in common.corpus_cases('C05') if c.get('stream') == kind] + FORCED.get(kind, []) + cases
         res, err = run_chunks(kind, cases, n=4 if kind == 'plan' else None)     # plan cases are tiny: few interpreter starts
         if err:
             ctx.fail('correspondence', '%s runner failed: %s' % (kind, err[-600:]), None)
@@ -301,6 +720,8 @@ def main(ctx):
                 continue
             for key, text in r['problems']:
                 ctx.fail('oracle', text + '  [' + key + ']', {'stream': kind, 'case': case}, match_key=match_key(key))
+            for t in r.get('cov', []):
+                tags.setdefault(kind, {})[t] = tags.setdefault(kind, {}).get(t, 0) + 1
             nontriv = r.get('stored_blocks', 0) > 1 and not r.get('skip')
             tag = kind + ':' + ','.join(sorted(set(case.get('surgery') or ['plain'])))
             hist[tag] = hist.get(tag, 0) + 1
@@ -355,7 +776,19 @@ def main(ctx):
             ctx.cov.setdefault('plan_traces', {})[chk] = len(pl)
         ctx.cov['timings_s'][kind] = round(time.time() - t_stream, 1)
     ctx.cov['input_distribution'] = hist
+    holes = coverage_tables(ctx, tags, refl.get('reflect', {}))
+    ctx.cov['coverage_holes'] = holes
     ctx.assumptions += [
+        'C05 coverage audit: public names / signatures of np_conserved (factorisation part), svd_robust and tools.math are read by reflection from the '
+        'code under test and compared with the option table of the check; line coverage of the anchored functions is measured with sys.monitoring in '
+        'every runner process; an unreached option class, structural class or source line is a correspondence failure',
+        'C05 exclusions: qr(mode=\'complete\', cutoff=...) (cutoff is documented for the reduced mode only), numpy qr modes other than the two documented ones, '
+        'npc.norm(ord=\'fro\') for Arrays (raises although listed in the table of the docstring; norm is not part of the property statement), '
+        'the claim "diagonal entries larger than cutoff" of tools.math.qr_li (holds for the pivoted intermediate R only), default absolute cutoffs '
+        '1e-15 / 1e-16 of pinv / polar on rank deficient input (rounding noise above the cutoff is kept by design: compared only when the '
+        'cutoff lies in a gap of the spectrum), single precision inputs with cutoffs below their rounding noise',
+        'C05 ownership: the returned Arrays must not share _data / _qdata memory with the input Array and the input must be bitwise unchanged '
+        '(entries, _qdata, _qdata_sorted, qtotal, labels, legs) after every call',
         'C05: only the charge/leg bookkeeping of svd and qr/lq is proved (Model/Factor.v); LAPACK results, reconstruction, isometry, triangularity, '
         'eigenpairs, Moore-Penrose identities, expm, polar, orthogonal_columns, speigs are checked by dense numpy oracles only (tolerance 1e-10*norm)',
         'C05 correspondence: the ranks kept per block are those the documentation promises (numpy SVD of the block, values > cutoff; min(M,N) for qr); '
@@ -365,7 +798,11 @@ def main(ctx):
                       'np_conserved.svd/qr/lq by vm_compute comparison of inner legs and total charges; numeric clauses by dense oracle')
 
 
-RULE = ('random rank-2 Arrays: direct (mostly non-blocked, unsorted legs) or rank 3-4 tensors after random combine_legs; integer/complex entries; block surgery '
-        '(zero, rank-deficient, rank-1, dropped blocks); one-sided sectors arise from the random charges; non-zero qtotal; all option combinations of '
-        'svd (full_matrices, cutoff, qtotal_LR, inner_qconj, labels), qr/lq (mode, cutoff, pos_diag, qtotal_Q, inner_qconj), eig/eigh/eigvals(h) (sort, UPLO), '
-        'expm, speigs, pinv, polar, orthogonal_columns; non-trivial = more than one stored block.')
+RULE = ('random rank-2 Arrays: direct (mostly non-blocked, unsorted legs), rank 3-4 tensors after random combine_legs, square matrices over LegPipes; dtypes '
+        'float64/complex128/float32/complex64/int64; stored blocks in random order (_qdata not sorted), C / Fortran / strided block memory; block surgery '
+        '(zero, rank-deficient, rank-1, dropped blocks, first/last sector without block); one-sided sectors; non-zero qtotal; the documented option lists of '
+        'svd (full_matrices, compute_uv, cutoff incl. a cutoff equal to a singular value, qtotal_LR incl. both entries, inner_qconj, labels), qr/lq (mode, '
+        'cutoff small/large, pos_diag, qtotal_Q, inner_qconj), eigh/eig/eigvalsh/eigvals (sort, UPLO with garbage in the other triangle), expm, speigs '
+        '(sector, k around the sector size, which, return_eigenvectors by keyword/position), pinv/polar (cutoff, left), orthogonal_columns (M>N, M==N, M<N, '
+        'charged, either qconj), npc.norm, svd_robust.svd, tools.math.qr_li/rq_li/speigs/speigsh, rejected requests and the LAPACK retry branches; every '
+        'result is used again in npc operations, after a deep copy, and the input is compared bitwise; non-trivial = more than one stored block.')
